@@ -541,7 +541,13 @@ func Run(args []string) *rep.Report {
 		}
 		if *topicEvery > 0 && idx%*topicEvery == 0 {
 			if k, d, _ := replayReceiver(&b, 2*time.Second, true); k != "" && k != "infra" {
-				r.Diverge(rep.Divergence{Key: k, Case: b, Detail: "with pubsub topic: " + d})
+				// confirm before alarm: the divergence must reproduce, with three times the patience (a pubsub message and the
+				// goroutines that handle it can be slow on a busy machine)
+				if k2, _, _ := replayReceiver(&b, 6*time.Second, true); k2 == k {
+					r.Diverge(rep.Divergence{Key: k, Case: b, Detail: "with pubsub topic: " + d})
+				} else {
+					r.Inconclusive++
+				}
 			}
 			r.AddExtra("behaviours_with_topic", 1)
 		}
